@@ -47,6 +47,9 @@ static void r_sc_neg(void) { crypto_core_ed25519_scalar_negate(OUT, SEC); }
 static void r_sc_compl(void) { crypto_core_ed25519_scalar_complement(OUT, SEC); }
 static void r_sc_inv(void) { OUT[40] = (unsigned char) crypto_core_ed25519_scalar_invert(OUT, SEC); }
 static void r_sc_reduce(void) { crypto_core_ed25519_scalar_reduce(OUT, SEC); }
+static void r_sc_canon(void) { OUT[0] = (unsigned char) crypto_core_ed25519_scalar_is_canonical(SEC); }
+static void r_ris_sc_canon(void) { OUT[0] = (unsigned char) crypto_core_ristretto255_scalar_is_canonical(SEC); }
+static void r_ris_sc_inv(void) { OUT[40] = (unsigned char) crypto_core_ristretto255_scalar_invert(OUT, SEC); }
 static void r_chacha(void) { crypto_stream_chacha20_xor(OUT, SEC + 32, publen, NONCE, SEC); }
 static void r_chacha_ietf(void) { crypto_stream_chacha20_ietf_xor(OUT, SEC + 32, publen, NONCE, SEC); }
 static void r_xchacha(void) { crypto_stream_xchacha20_xor(OUT, SEC + 32, publen, NONCE, SEC); }
@@ -85,6 +88,8 @@ static const op OPS[] = {
     { "crypto_scalarmult_ristretto255", 32, 0, 0, 0, 1, 0, r_ris_mult }, { "crypto_scalarmult_ristretto255_base", 32, 0, 0, 0, 1, 0, r_ris_base },
     { "crypto_core_ed25519_scalar_add", 64, 0, 0, 0, 0, 0, r_sc_add }, { "crypto_core_ed25519_scalar_sub", 64, 0, 0, 0, 0, 0, r_sc_sub }, { "crypto_core_ed25519_scalar_mul", 64, 0, 0, 0, 0, 0, r_sc_mul },
     { "crypto_core_ed25519_scalar_negate", 32, 0, 0, 0, 0, 0, r_sc_neg }, { "crypto_core_ed25519_scalar_complement", 32, 0, 0, 0, 0, 0, r_sc_compl },
+    { "crypto_core_ed25519_scalar_is_canonical", 32, 0, 0, 0, 0, 0, r_sc_canon }, { "crypto_core_ristretto255_scalar_is_canonical", 32, 0, 0, 0, 0, 0, r_ris_sc_canon },
+    { "crypto_core_ristretto255_scalar_invert", 32, 0, 0, 0, 0, 0, r_ris_sc_inv },
     { "crypto_core_ed25519_scalar_invert", 32, 0, 0, 0, 0, 0, r_sc_inv }, { "crypto_core_ed25519_scalar_reduce", 64, 0, 0, 0, 0, 0, r_sc_reduce },
     { "crypto_stream_chacha20_xor", 0, 1, 0, 130, 0, 0, r_chacha }, { "crypto_stream_chacha20_ietf_xor", 0, 1, 0, 130, 0, 0, r_chacha_ietf }, { "crypto_stream_xchacha20_xor", 0, 1, 0, 130, 0, 0, r_xchacha },
     { "crypto_stream_salsa20_xor", 0, 1, 0, 130, 0, 0, r_salsa }, { "crypto_stream_xsalsa20_xor", 0, 1, 0, 130, 0, 0, r_xsalsa },
@@ -135,10 +140,15 @@ static void check_item(const op *O, size_t plen)
     publen = plen;
     slen = O->key_plus_msg == 1 ? 32 + plen : O->key_plus_msg == 2 ? 2 * plen : O->key_plus_msg == 3 ? plen : O->fixed_slen;
     n_ops++;
-    for (b = 0; b < 4; b++) {
-        static const int BASES[4] = { PAT_Z, PAT_F, PAT_R1, PAT_R2 };
+    for (b = 0; b < 7; b++) {
+        static const int BASES[7] = { PAT_Z, PAT_F, PAT_R1, PAT_R2, PAT_R1, PAT_R1, PAT_R1 };
+        /* scalar operations: three more base secrets on the boundary of the group order (L - 1, L, 2^252): the values at which a comparison with L
+         * written with early exits, or a conditional final subtraction, would take a different path */
+        static const unsigned char L_LE[32] = { 0xed,0xd3,0xf5,0x5c,0x1a,0x63,0x12,0x58,0xd6,0x9c,0xf7,0xa2,0xde,0xf9,0xde,0x14,0,0,0,0,0,0,0,0,0,0,0,0,0,0,0,0x10 };
+        if (b >= 4 && !(strstr(O->name, "_scalar_") && slen >= 32)) continue;
         if (O->no_zero_base && BASES[b] == PAT_Z) continue;
         vf_pat(base, slen, BASES[b], 1300);
+        if (b >= 4) { memcpy(base, L_LE, 32); if (b == 4) base[0] -= 1; if (b == 6) memset(base, 0, 31); }
         if (O->key_plus_msg == 2 && (b & 1)) memcpy(base + plen, base, plen);                 /* comparison helpers: also an EQUAL pair as base */
         if (O->run == r_verify16 && b == 1) memcpy(base + 16, base, 16);
         if (O->run == r_verify32 && b == 1) memcpy(base + 32, base, 32);
@@ -158,7 +168,7 @@ static void check_item(const op *O, size_t plen)
         if (O->run == r_unpad) for (i = 0; i < 16; i++) { memcpy(var, base, slen); memset(var + 48, 0, 16); var[48 + i] = 0x80; PAIR("pad-position", i); }   /* every pad position in the last block */
         if ((O->run == r_poly || O->run == r_poly_verify) && b == 2 && pc_n) { long k; for (k = 0; k < pc_n; k++) { const unsigned char *rec = pc_data + pc_off[k]; size_t len = (size_t) (rec[32] | rec[33] << 8);
             if (len != plen) continue; memcpy(var, rec, 32); memcpy(var + 32, rec + 34, len); PAIR("built-backwards-case", k); } }
-        { static const int OTHER[4] = { PAT_C, PAT_H, PAT_R2, PAT_R1 }; vf_pat(var, slen, OTHER[b], 1301); if (O->run == r_unpad) { memset(var + 48, 0, 16); var[50] = 0x80; } PAIR("other-pattern", b); }
+        { static const int OTHER[7] = { PAT_C, PAT_H, PAT_R2, PAT_R1, PAT_C, PAT_H, PAT_R2 }; vf_pat(var, slen, OTHER[b], 1301); if (O->run == r_unpad) { memset(var + 48, 0, 16); var[50] = 0x80; } PAIR("other-pattern", b); }
 next_base:;
     }
 }
